@@ -19,8 +19,9 @@ Proof. exact incremental_eq_batch. Qed.
 Print Assumptions C27_incremental_eq_batch.
 
 (* A rejected input leaves every component a later input can observe as it was: method
-   signatures, constants, locals with their declared types, the compiler's slot table, and the
-   whole VM state — from ANY state (in particular after any history). *)
+   signatures, constants, locals with their declared types, the compiler's slot table, the named
+   types (typedefs) and classes, and the whole VM state — from ANY state (in particular after any
+   history). *)
 Theorem C27_rollback : forall (st : istate) (inp : input) (st1 : istate),
   incr_step true st inp = (st1, Rejected) -> visible st1 = visible st.
 Proof. exact rollback. Qed.
@@ -36,7 +37,7 @@ Print Assumptions C27_rejected_no_trace.
 
 (* CheckSource as found (no restore of c.compiler): a local, then an input that fails in the
    type-definition phase — the compiler chain is left at the namespace-definition compiler. *)
-Definition w_hist : list input := [[SDecl 0 TInt (ELit 5)]].
+Definition w_hist : list input := [[SDecl 0 XInt (ELit 5)]].
 Definition w_early : input := [SEarly].
 
 Theorem C27_rollback_refuted : exists h inp st1,
@@ -61,8 +62,10 @@ Print Assumptions C27_incremental_refuted.
 
 (* Every field of `type Checker struct` as it is in the source today has a class, and the class agrees
    with what CheckSource / CheckProgram syntactically do to the field (saved, restored in the failure
-   block, reset before CheckProgram, assigned at all). A new field, or a restored field that is no
-   longer saved AND put back, makes this false. *)
+   block, reset before CheckProgram, assigned at all, unconditionally reassigned by CheckProgram). A new
+   field, a restored field that is no longer saved AND put back, or a field whose safety rests on
+   CheckSource re-initialising it for every input (ResetBySource: e.g. the scope-copy caches) that
+   CheckSource no longer assigns before CheckProgram, makes this false. *)
 Theorem C27_frame_audit : frame_audit = true.
 Proof. vm_compute. reflexivity. Qed.
 Print Assumptions C27_frame_audit.
@@ -70,9 +73,9 @@ Print Assumptions C27_frame_audit.
 (* non-vacuity: a history with a late failure (method hoisted, body ill-typed), an early failure, a
    redefinition and a runtime error; the REPL runs 5 of 7 inputs and prints something *)
 Definition nv_hist : list input :=
-  [ [SDef 0 TInt (EAdd EParam (ELit 1)); SDecl 0 TInt (ELit 5); SDecl 1 TInt (ELit 0)];
+  [ [SDef 0 TInt (EAdd EParam (ELit 1)); SDecl 0 XInt (ELit 5); SDecl 1 XInt (ELit 0)];
     [SDef 1 TInt (EStr 7); SPrint (ECall 0 (ELoc 0))];          (* late: m1's body is a String *)
-    [SEarly; SDecl 2 TInt (ELit 9)];                             (* early *)
+    [SEarly; SDecl 2 XInt (ELit 9)];                             (* early *)
     [SPrint (ECall 0 (ELoc 0))];
     [SDef 0 TInt (EMul EParam (ELit 10)); SPrint (ECall 0 (ELoc 0))];  (* redefinition *)
     [SAssign 0 (ELit 7); SPrint (EDiv (ELoc 0) (ELoc 1)); SPrint (ELit 1)];  (* runtime error *)
@@ -87,6 +90,28 @@ Proof. vm_compute. split; reflexivity. Qed.
 Example C27_rollback_nonvacuous : exists st1,
   incr_step true (snd (incr true i_init (firstn 1 nv_hist))) (nth 1 nv_hist []) = (st1, Rejected).
 Proof. eexists. vm_compute. reflexivity. Qed.
+
+(* named types and classes: a rejected input that declared an alias (and a class) first; a probe that
+   uses the alias must be rejected; a chain of aliases declared after the rejection must be accepted;
+   forward reference inside one input; circular definition; objects live in slots *)
+Definition nv_types : list input :=
+  [ [STypedef 0 XStr; SDecl 0 (XAlias 0) (EStr 1); SPrint (ELoc 0)];
+    [STypedef 1 XInt; SClass 0; STypedef 2 (XAlias 9)];        (* rejected: alias 9 undefined *)
+    [STypedef 3 (XAlias 1)];                                    (* probe: alias 1 left no trace *)
+    [SDecl 4 (XClass 0) (ENew 0)];                              (* probe: class 0 left no trace *)
+    [STypedef 4 XInt];
+    [STypedef 5 (XAlias 4)];
+    [STypedef 6 (XAlias 7); STypedef 7 (XClass 1); SClass 1; SDecl 1 (XAlias 6) (ENew 1); SDecl 2 (XAlias 5) (ELit 7)];
+    [STypedef 8 (XAlias 8)];                                    (* circular *)
+    [SAssign 1 (ENew 1); SPrint (EAdd (ELoc 2) (ELit 1)); SPrint (ELoc 0)];
+    [SAssign 2 (ENew 1)] ].                                     (* an object into an Int local *)
+
+Example C27_types_nonvacuous :
+  fst (incr true i_init nv_types) =
+  [ Ran [VStr 1] Done; Rejected; Rejected; Rejected; Ran [] Done; Ran [] Done; Ran [] Done; Rejected;
+    Ran [VInt 8; VStr 1] Done; Rejected ]
+  /\ ran_results (fst (incr true i_init nv_types)) = ref_run b_init (accepted true i_init nv_types).
+Proof. vm_compute. split; reflexivity. Qed.
 
 Example C27_frame_audit_nonvacuous : Nat.ltb 10 (List.length gen_fields) = true /\ unclassified = [].
 Proof. vm_compute. split; reflexivity. Qed.
